@@ -3,6 +3,7 @@ package c06
 import (
 	"encoding/json"
 	"fmt"
+	"reflect"
 	"runtime"
 	"strings"
 	"testing"
@@ -71,8 +72,24 @@ func run(c memCase, mem uint64) obs {
 		close(sampled)
 	}
 	o.tr = progcheck.RunGolua(progcheck.Case{Source: c.Source, Args: c.Args}, harness.Opts{Mem: mem, CPU: c.CPU, EventHook: func(r *rt.Runtime, e string) {
-		if u := r.UsedResources().Memory; mem > 0 && u >= mem && o.overrun == "" {
+		u := r.UsedResources().Memory
+		if mem > 0 && u >= mem && o.overrun == "" {
 			o.overrun = fmt.Sprintf("accounted memory %d >= limit %d at event %s", u, mem, e)
+		}
+		// retention templates report a lower bound of what they keep alive
+		// (payload bytes of strings reachable from a live table)
+		if strings.HasPrefix(e, `s:"retained" i:`) && o.overrun == "" && mem > 0 {
+			var kept uint64
+			fmt.Sscanf(e[len(`s:"retained" i:`):], "%d", &kept)
+			// what nested contexts use is charged to their parents only when
+			// they are popped: add up the whole chain
+			u = 0
+			for ctx := r.RuntimeContext(); ctx != nil && !reflect.ValueOf(ctx).IsNil(); ctx = ctx.Parent() {
+				u += ctx.UsedResources().Memory
+			}
+			if kept > 65536 && u < kept/4 {
+				o.overrun = fmt.Sprintf("the program provably keeps %d bytes alive but only %d are accounted to its context (limit %d): accounting has lost memory that is still in use", kept, u, mem)
+			}
 		}
 	}})
 	close(stop)
@@ -199,25 +216,30 @@ var amplify = []struct{ name, src string }{
 	{"xpcall-retry-alloc", `local kept = {} for round = 1, 100 do xpcall(function() for i = 1, N do kept[#kept + 1] = ("k"):rep(1000) end end, function(m) return m end) end return #kept`},
 	// retention: N rounds each keep ~1.5 KB alive; the round's allocation and
 	// the releases around it happen in differently nested contexts
-	{"retain-plain", `local keep = {} for i = 1, N do keep[#keep + 1] = ("x"):rep(SZ) end return #keep`},
-	{"retain-in-pcall", `local keep = {} for i = 1, N do pcall(function() keep[#keep + 1] = ("x"):rep(SZ) end) end return #keep`},
-	{"retain-in-pcall-then-error", `local keep = {} for i = 1, N do pcall(function() keep[#keep + 1] = ("x"):rep(SZ) error("e") end) end return #keep`},
-	{"retain-in-xpcall-handler", `local keep = {} for i = 1, N do xpcall(error, function(m) keep[#keep + 1] = ("x"):rep(SZ) return m end, i) end return #keep`},
-	{"retain-in-callcontext", `local keep = {} for i = 1, N do runtime.callcontext({}, function() keep[#keep + 1] = ("x"):rep(SZ) end) end return #keep`},
-	{"retain-in-nested-pcall", `local keep = {} for i = 1, N do pcall(pcall, pcall, function() keep[#keep + 1] = ("x"):rep(SZ) end) end return #keep`},
-	{"retain-in-coroutine", `local keep = {} for i = 1, N do coroutine.wrap(function() keep[#keep + 1] = ("x"):rep(SZ) end)() end return #keep`},
-	{"retain-coroutine-finishes-in-pcall", `local keep = {} for i = 1, N do local co = coroutine.wrap(function() coroutine.yield() end) co() pcall(function() keep[#keep + 1] = ("x"):rep(SZ) co() end) end return #keep`},
-	{"retain-coroutine-runs-in-pcall", `local keep = {} for i = 1, N do local co = coroutine.wrap(function() end) pcall(function() keep[#keep + 1] = ("x"):rep(SZ) co() end) end return #keep`},
-	{"retain-coroutine-runs-in-callcontext", `local keep = {} for i = 1, N do local co = coroutine.create(function() return 1 end) runtime.callcontext({}, function() keep[#keep + 1] = ("x"):rep(SZ) coroutine.resume(co) end) end return #keep`},
-	{"retain-coroutine-runs-in-nested-pcall", `local keep = {} for i = 1, N do local co = coroutine.wrap(function() end) pcall(function() keep[#keep + 1] = ("x"):rep(SZ) pcall(co) end) end return #keep`},
-	{"retain-coroutine-from-pcall-runs-outside", `local keep, co = {} for i = 1, N do pcall(function() co = coroutine.wrap(function() keep[#keep + 1] = ("x"):rep(SZ) end) end) co() end return #keep`},
-	{"retain-coroutine-finishes-in-callcontext", `local keep = {} for i = 1, N do local co = coroutine.wrap(function() coroutine.yield() end) co() runtime.callcontext({}, function() keep[#keep + 1] = ("x"):rep(SZ) co() end) end return #keep`},
-	{"retain-coroutine-created-in-pcall", `local keep, co = {} for i = 1, N do pcall(function() co = coroutine.wrap(function() coroutine.yield() keep[#keep + 1] = ("x"):rep(SZ) end) co() end) co() end return #keep`},
-	{"retain-coroutine-closed-in-pcall", `local keep = {} for i = 1, N do local co = coroutine.create(function() local c <close> = setmetatable({}, {__close = function() keep[#keep + 1] = ("x"):rep(SZ) end}) coroutine.yield() end) coroutine.resume(co) pcall(coroutine.close, co) end return #keep`},
-	{"retain-in-close-handler", `local keep = {} for i = 1, N do pcall(function() local c <close> = setmetatable({}, {__close = function() keep[#keep + 1] = ("x"):rep(SZ) end}) error("e") end) end return #keep`},
-	{"retain-in-sort-comparator", `local keep = {} for i = 1, N do table.sort({2, 1}, function(a, b) keep[#keep + 1] = ("x"):rep(SZ) return a < b end) end return #keep`},
-	{"retain-in-gsub-callback", `local keep = {} for i = 1, N do string.gsub("a", "a", function() keep[#keep + 1] = ("x"):rep(SZ) end) end return #keep`},
-	{"retain-in-metamethod", `local keep = {} local o = setmetatable({}, {__index = function(_, k) keep[#keep + 1] = ("x"):rep(SZ) return k end}) for i = 1, N do local _ = o[i] end return #keep`},
+	{"retain-plain", `local keep = {} for i = 1, N do keep[#keep + 1] = ("x"):rep(SZ) if #keep % 64 == 0 then emit("retained", #keep * SZ) end end return #keep`},
+	{"retain-in-pcall", `local keep = {} for i = 1, N do pcall(function() keep[#keep + 1] = ("x"):rep(SZ) if #keep % 64 == 0 then emit("retained", #keep * SZ) end end) end return #keep`},
+	{"retain-in-pcall-then-error", `local keep = {} for i = 1, N do pcall(function() keep[#keep + 1] = ("x"):rep(SZ) if #keep % 64 == 0 then emit("retained", #keep * SZ) end error("e") end) end return #keep`},
+	{"retain-in-xpcall-handler", `local keep = {} for i = 1, N do xpcall(error, function(m) keep[#keep + 1] = ("x"):rep(SZ) if #keep % 64 == 0 then emit("retained", #keep * SZ) end return m end, i) end return #keep`},
+	{"retain-in-callcontext", `local keep = {} for i = 1, N do runtime.callcontext({}, function() keep[#keep + 1] = ("x"):rep(SZ) if #keep % 64 == 0 then emit("retained", #keep * SZ) end end) end return #keep`},
+	{"retain-in-nested-pcall", `local keep = {} for i = 1, N do pcall(pcall, pcall, function() keep[#keep + 1] = ("x"):rep(SZ) if #keep % 64 == 0 then emit("retained", #keep * SZ) end end) end return #keep`},
+	{"retain-in-coroutine", `local keep = {} for i = 1, N do coroutine.wrap(function() keep[#keep + 1] = ("x"):rep(SZ) if #keep % 64 == 0 then emit("retained", #keep * SZ) end end)() end return #keep`},
+	{"retain-coroutine-finishes-in-pcall", `local keep = {} for i = 1, N do local co = coroutine.wrap(function() coroutine.yield() end) co() pcall(function() keep[#keep + 1] = ("x"):rep(SZ) if #keep % 64 == 0 then emit("retained", #keep * SZ) end co() end) end return #keep`},
+	{"retain-with-failing-compile", `local src = "goto nowhere --" .. ("y"):rep(100000) local keep = {} for i = 1, N do keep[#keep + 1] = ("x"):rep(SZ) if #keep % 64 == 0 then emit("retained", #keep * SZ) end load(src) end return #keep`},
+	{"retain-with-failing-parse", `local src = "x = = --" .. ("y"):rep(100000) local keep = {} for i = 1, N do keep[#keep + 1] = ("x"):rep(SZ) if #keep % 64 == 0 then emit("retained", #keep * SZ) end load(src) end return #keep`},
+	{"retain-with-failing-load-pieces", `local piece = ("y"):rep(10000) local keep = {} for i = 1, N do keep[#keep + 1] = ("x"):rep(SZ) if #keep % 64 == 0 then emit("retained", #keep * SZ) end local n = 0 load(function() n = n + 1 if n == 1 then return "break --" elseif n < 10 then return piece end end) end return #keep`},
+	{"retain-with-failing-dump-load", `local d = string.dump(load("return " .. ("1+"):rep(20000) .. "1")) local bad = d:sub(1, #d - 10) local keep = {} for i = 1, N do keep[#keep + 1] = ("x"):rep(SZ) if #keep % 64 == 0 then emit("retained", #keep * SZ) end load(bad) end return #keep`},
+	{"retain-with-error-in-format", `local keep = {} local big = ("y"):rep(100000) for i = 1, N do keep[#keep + 1] = ("x"):rep(SZ) if #keep % 64 == 0 then emit("retained", #keep * SZ) end pcall(string.format, "%s %d", big, "x") end return #keep`},
+	{"retain-coroutine-runs-in-pcall", `local keep = {} for i = 1, N do local co = coroutine.wrap(function() end) pcall(function() keep[#keep + 1] = ("x"):rep(SZ) if #keep % 64 == 0 then emit("retained", #keep * SZ) end co() end) end return #keep`},
+	{"retain-coroutine-runs-in-callcontext", `local keep = {} for i = 1, N do local co = coroutine.create(function() return 1 end) runtime.callcontext({}, function() keep[#keep + 1] = ("x"):rep(SZ) if #keep % 64 == 0 then emit("retained", #keep * SZ) end coroutine.resume(co) end) end return #keep`},
+	{"retain-coroutine-runs-in-nested-pcall", `local keep = {} for i = 1, N do local co = coroutine.wrap(function() end) pcall(function() keep[#keep + 1] = ("x"):rep(SZ) if #keep % 64 == 0 then emit("retained", #keep * SZ) end pcall(co) end) end return #keep`},
+	{"retain-coroutine-from-pcall-runs-outside", `local keep, co = {} for i = 1, N do pcall(function() co = coroutine.wrap(function() keep[#keep + 1] = ("x"):rep(SZ) if #keep % 64 == 0 then emit("retained", #keep * SZ) end end) end) co() end return #keep`},
+	{"retain-coroutine-finishes-in-callcontext", `local keep = {} for i = 1, N do local co = coroutine.wrap(function() coroutine.yield() end) co() runtime.callcontext({}, function() keep[#keep + 1] = ("x"):rep(SZ) if #keep % 64 == 0 then emit("retained", #keep * SZ) end co() end) end return #keep`},
+	{"retain-coroutine-created-in-pcall", `local keep, co = {} for i = 1, N do pcall(function() co = coroutine.wrap(function() coroutine.yield() keep[#keep + 1] = ("x"):rep(SZ) if #keep % 64 == 0 then emit("retained", #keep * SZ) end end) co() end) co() end return #keep`},
+	{"retain-coroutine-closed-in-pcall", `local keep = {} for i = 1, N do local co = coroutine.create(function() local c <close> = setmetatable({}, {__close = function() keep[#keep + 1] = ("x"):rep(SZ) if #keep % 64 == 0 then emit("retained", #keep * SZ) end end}) coroutine.yield() end) coroutine.resume(co) pcall(coroutine.close, co) end return #keep`},
+	{"retain-in-close-handler", `local keep = {} for i = 1, N do pcall(function() local c <close> = setmetatable({}, {__close = function() keep[#keep + 1] = ("x"):rep(SZ) if #keep % 64 == 0 then emit("retained", #keep * SZ) end end}) error("e") end) end return #keep`},
+	{"retain-in-sort-comparator", `local keep = {} for i = 1, N do table.sort({2, 1}, function(a, b) keep[#keep + 1] = ("x"):rep(SZ) if #keep % 64 == 0 then emit("retained", #keep * SZ) end return a < b end) end return #keep`},
+	{"retain-in-gsub-callback", `local keep = {} for i = 1, N do string.gsub("a", "a", function() keep[#keep + 1] = ("x"):rep(SZ) if #keep % 64 == 0 then emit("retained", #keep * SZ) end end) end return #keep`},
+	{"retain-in-metamethod", `local keep = {} local o = setmetatable({}, {__index = function(_, k) keep[#keep + 1] = ("x"):rep(SZ) if #keep % 64 == 0 then emit("retained", #keep * SZ) end return k end}) for i = 1, N do local _ = o[i] end return #keep`},
 }
 
 // pairing templates: memory required in one context and released in another,
